@@ -1,7 +1,7 @@
 """WorkManager family: C12 (each query batch gets exactly one verdict; success
 means all answered; unanswered requests are re-issued to the best-ranked free
 peer; a finished batch never blocks later batches or shutdown)."""
-import json, os, random, shutil, time
+import json, os, random, shutil, sys, time
 from .. import core, family
 
 SPEC = os.path.join(core.VERIF, "specs", "WorkManager")
@@ -10,7 +10,7 @@ DRIVER_W = os.path.join(core.VERIF, "harness", "overlay", "query", "zz_verif_wor
 DRIVER_F = os.path.join(core.VERIF, "harness", "overlay", "query", "zz_verif_workmanager_free_test.go")
 PKG = os.path.join(core.REPO, "query")
 
-READY = False
+READY = True
 PROPERTIES = ["C12"]
 
 MANIFEST = {
@@ -92,6 +92,9 @@ SLICES = {
         ("req3", cfg(MaxReq=3, MaxFail=2, MaxOk=3, MaxCancel=1)),
     ],
 }
+# Design-level run (thorough only): a configuration too large to export and replay is model-checked with
+# the property as an invariant (no model transition violates a clause, the dispatcher is never stuck).
+DESIGN_CFG = cfg(MaxBatch=2, Hards="{0,1}", Progs="{0,1}", MaxStale=1)
 FREE_RUNS = {"quick": 150, "thorough": 2000}          # free-running executions with real workers
 WALKS = {"quick": (0, 0), "thorough": (300, 24)}     # random walks per slice: (count, depth)
 
@@ -562,6 +565,20 @@ def run(prop_id, tier, seed, replay=None):
                 # the repository's tests could not be recorded (they may be broken by the change under
                 # test): the replay verdicts stand on their own
                 extra["repo_tests_traced"] = {"error": str(e)[:500]}
+        if tier == "thorough" and not replay and CODE_VERSION.get("FixStaleWorker"):
+            c = dict(DESIGN_CFG)
+            c.update(CODE_VERSION)
+            d = core.run_tlc([SPEC], "WorkManager", c, export=False, workers=8, timeout=2400,
+                             invariants=["TypeOK", "NoViolation", "NeverBlocked"],
+                             workdir=os.path.join(sc, "tlc-design"))
+            extra["design_level"] = {"constants": {k: str(v) for k, v in c.items()}, "states": d.distinct,
+                                     "states_generated": d.generated, "depth": d.depth,
+                                     "invariants": ["TypeOK", "NoViolation", "NeverBlocked"],
+                                     "result": "holds" if d.ok else (d.error or "failed"),
+                                     "wall_s": round(d.wall, 1)}
+            if not d.ok:
+                print("model-level: the design-level configuration did not pass (%s); not a verdict" % d.error,
+                      file=sys.stderr)
         extra.update({"code_version": CODE_VERSION,
                       "edges_only_reachable_through_model_violation": unreach,
                       "hangs_observed": sum(1 for t in observed for s in t["steps"] if s.get("dump"))})
